@@ -35,6 +35,16 @@ CHECKS = {
         text="Every recorded state of every operator sequence (single/multi, pflood, mst basic/carve, repeated updates, masks, looped borders, meshes): donor table is the inverse of the receiver table as bags over distinct nodes, counts within table widths and indices in range, dfs order is a permutation with every receiver before its donors, bfs order is a permutation cut into non-empty strictly increasing levels with every receiver in a strictly earlier level.",
         note="Pure discrete check, exact. Bounded by the sampled worlds (<= 8x8).",
         ref="5-C06"),
+    "C09": dict(
+        technique="TLA+ FlowGraph specification without hidden state: memo variable makes UpdateRoutes/Accumulate/Basins functional in their inputs; TLC validates recorded call histories; PFloodTwice model checks tie-break independence",
+        text="Recorded histories (<= ~40 calls: update_routes, set_mask, set_base_levels in permuted insertion orders, exponent changes, accumulate, basins, repeated calls, revisits of earlier inputs, then a fresh object with the same inputs) are validated by TLC against a specification in which the observation (returned elevation, receivers, counts, distance/weight bit patterns as ranks, donors, dfs/bfs/levels, accumulation, basins) is a function of (operators+parameters, elevation, mask, base-level set): any two observations with equal inputs inside one history must be identical, and the argument array must be bit-identical after the call.",
+        note="Bit-for-bit equality is decided on ulp-ranks (injective on bit patterns up to the sign of zero). Histories are sampled; the PFloodTwice model covers all tie-break choices of the flood on a 2x3 raster.",
+        ref="5-C09"),
+    "C16": dict(
+        technique="TLA+ FlowGraph!SnapGraph/SnapElev/SnapMutate actions: snapshot state looked up in the memo of the prefix graph; TLC validates recorded histories",
+        text="For sequences with graph/elevation snapshots at several positions (single and multiple direction states), the harness also runs the prefix graphs on the same inputs; TLC checks that each snapshot's receivers, counts, distance and weight bit patterns and donors equal the prefix graph's, that its own dfs/bfs/levels/donor tables satisfy C06, that accumulate and basins on the snapshot equal those on the prefix graph, that elevation snapshots equal the elevation at that point, that a later update with another input replaces (and only replaces) the snapshot, and that update_routes/set_mask/set_base_levels on a snapshot are refused.",
+        note="Kernel application on snapshots is covered through the traversal-order validity (C06 conjuncts on the snapshot's own tables), not by running kernels. Sampled sequences (7 shapes of snapshot placement) and worlds.",
+        ref="5-C16"),
     "C19": dict(
         technique="TLA+ label contract (FlowContract!C19) evaluated by TLC on recorded basins() calls",
         text="Every recorded basins() call on single-direction graphs (all resolver variants, masks, repeated updates): masked nodes carry the reserved label, every unmasked node has its receiver's label, outlets are labelled 0..k-1 in bottom-up order, number of labels = number of unmasked outlets, outlets()/pits() are exactly the outlets / the outlets that are not base levels.",
